@@ -467,10 +467,12 @@ func (c *SCIONClient) measureClockOffsetSCION(ctx context.Context, mtrcs *scionC
 		// their bytes
 		validSrc := scionLayer.SrcIA == remoteAddr.IA &&
 			(scionLayer.SrcAddrType == slayers.T4Ip || scionLayer.SrcAddrType == slayers.T16Ip) &&
-			compareIPs(scionLayer.RawSrcAddr, remoteAddr.Host.IP) == 0
+			compareIPs(scionLayer.RawSrcAddr, remoteAddr.Host.IP) == 0 &&
+			int(udpLayer.SrcPort) == remoteAddr.Host.Port
 		validDst := scionLayer.DstIA == localAddr.IA &&
 			(scionLayer.DstAddrType == slayers.T4Ip || scionLayer.DstAddrType == slayers.T16Ip) &&
-			compareIPs(scionLayer.RawDstAddr, localAddr.Host.IP) == 0
+			compareIPs(scionLayer.RawDstAddr, localAddr.Host.IP) == 0 &&
+			int(udpLayer.DstPort) == localPort
 		if !validSrc || !validDst {
 			err = errUnexpectedPacket
 			if numRetries != maxNumRetries && deadlineIsSet && timebase.Now().Before(deadline) {
